@@ -201,13 +201,6 @@ func ReplayShuffle(v *explore.Violation) (bool, string) {
 func RunC14(rep *explore.Report, tier string) {
 	rep.Set("rule", "every reachable state of the play grid (decks of distinct tokens in factory, reversed, rotated and layout orders): visible cards == consumed deck prefix in dealing order, street sizes, prefix monotonicity on every transition; ShuffleCards through the rand seam: all n! answer sequences for n<=7 (also through Start()), all sequences with <=2 (quick, 52 cards: <=1) non-default answers for the 36- and 52-card decks; distinct_nontrivial = distinct shuffle outcomes + states with at least one card dealt")
 	grid := PlayGrid(tier)
-	// decks that fit the hand exactly (every card is dealt by the river) or with one card to spare
-	for _, d := range []string{"f52:12", "f52:13", "r52:12", "t36:12"} {
-		grid = append(grid, cfg([]int64{3, 3}, 0, 1, 2, 0, false, 0, "no", d, 2, 0, "standard", "classes"))
-	}
-	grid = append(grid, cfg([]int64{2, 3, 2}, 1, 1, 2, 0, false, 1, "no", "f52:14", 2, 0, "standard", "classes"))
-	grid = append(grid, cfg([]int64{3, 2}, 0, 1, 2, 0, false, 0, "no", "f52:16", 4, 2, "standard", "classes"))
-	grid = append(grid, cfg([]int64{2, 2, 2, 2, 2, 2, 2}, 0, 1, 2, 0, false, 0, "no", "f36", 4, 2, "short", "classes"))
 	RunGrid(rep, grid, Visitors["C14"], GridOpts{Property: "C14", MaxState: 3000000})
 	// the same oracle on genuinely uninterrupted objects (no state cloning): keeps aliasing between the deck and dealt cards
 	RunGrid(rep, ReplayGrid(tier), Visitors["C14"], GridOpts{Property: "C14", MaxState: 300000, Mode: "replay"})
